@@ -152,6 +152,7 @@ class Executor:
         self.back_states = None
         self.templates = []            # template invariants: functions poly -> poly (candidate facts t(v) >= 0)
         self._cand_cache = {}
+        self.keep_dead_entry_locals = False   # rules that read a local of the entry function at its return
         self.result_facts = None       # fn(trait, method, result symbol name) -> [poly >= 0] assumed about an abstract call's result
         self.weak_cands = {}           # ADT def -> candidate indices some loop's Houdini run has refuted (not re-tried at merges)
         self.struct_templates = {}     # ADT def -> fn({field name: value}) -> [(guard 0/1 poly | None, poly >= 0)]
@@ -941,7 +942,8 @@ class Executor:
             else:
                 raise Undecided("SetDiscriminant on %r" % (v,))
         elif k == "dead":
-            st.mem.pop(("L", fr.fid, s["local"]), None)
+            if not (self.keep_dead_entry_locals and fr.depth == 0):
+                st.mem.pop(("L", fr.fid, s["local"]), None)
         # live / intrinsic(assume) are no-ops for the abstraction
 
     # ================================================================ control flow
@@ -2214,9 +2216,29 @@ class Executor:
         self.havoc_mut_args(st, args, name)
         return [(st, ret)]
 
+    def reaches_effects(self, v, depth=0):
+        """can a callee given this argument do something the interpreter would not see? It can if it receives a
+        mutable reference, a closure, or an object of an abstract (caller-chosen) type such as a pin or a bus; a
+        function of plain values can only compute its result, which is a fresh unknown anyway."""
+        if depth > 6:
+            return True
+        if isinstance(v, Ptr):
+            return bool(v.mut) or (v.pty is not None and "param" in repr(v.pty))
+        if isinstance(v, SymV):
+            return "'k': 'param'" in repr(v.ty) or "'k': 'proj'" in repr(v.ty) or "'k': 'ref'" in repr(v.ty) or "'k': 'closure'" in repr(v.ty)
+        if isinstance(v, Agg):
+            if v.kind == "closure":
+                return True
+            return any(self.reaches_effects(f, depth + 1) for f in v.fields)
+        if isinstance(v, ITE):
+            return self.reaches_effects(v.a, depth + 1) or self.reaches_effects(v.b, depth + 1)
+        if isinstance(v, Term):
+            return any(self.reaches_effects(a, depth + 1) for a in v.args)
+        return False
+
     def unknown_call(self, st, fr, callee, r, args, dest_ty, span):
         self.notes.append({"what": "unknown_call", "callee": callee["def"], "key": self.summary_key(callee), "fn": fr.fn_id,
-                           "span": span})
+                           "span": span, "effects": any(self.reaches_effects(a) for a in args)})
         if not self.dry:
             st.trace.append(Ev("note", fn=fr.fn_id, span=span, stack=fr.stack, info=("unknown_call", callee["def"])))
         ret = self.mk_sym(self.normalize(dest_ty), self.fresh(callee["name"] or "ext")) if dest_ty is not None else UNITV
